@@ -534,3 +534,437 @@ def rt_depths_key(req):
 
 
 RT['depths_key'] = rt_depths_key
+
+
+def rt_preempt2(req):
+    """C17, two preemptions: thread A is parked before its k-th sigtools line; thread B then runs until ITS j-th sigtools line
+    and is parked there; A resumes and finishes; B resumes and finishes.  Neither may raise, and afterwards — at quiescence,
+    alone — the shared object must answer what it answered before, and again (nothing that was read inside the other
+    thread's delete/restore window may have been kept).  For functions with a `__wrapped__` of their own the answers
+    obtained DURING the schedule are subject to the recorded window D6 and are not judged here."""
+    import sys
+    import threading
+    from . import real_rt
+    _, name, ks, js = req
+    if name == 'wrapped_fresh':
+        # a functools.wraps function nobody has asked about before: a new one for every schedule (and for the reference)
+        from . import scenarios
+
+        def make():
+            def target(p, q=1): return ('t', p, q)
+            return {'o': scenarios.wraps_deco(target)}
+        do = real_rt._preempt_scenarios()['wrapped_fn'][1]
+    else:
+        make, do, _b = real_rt._preempt_scenarios()[name]
+    windowed = name in ('wrapped_fn', 'wrapped_twice', 'wrapped_fresh', 'instance_signature', 'annotate_related')
+    expected = do(make())
+    problems = []
+    explored = 0
+    for k in ks:
+        for j in js:
+            st = make()
+            a_reached, a_resume, b_reached, b_resume = (threading.Event() for _ in range(4))
+            out = {}
+
+            def tracer_for(n, reached, resume, counter):
+                def local_tracer(frame, event, arg):
+                    if event == 'line':
+                        counter[0] += 1
+                        if counter[0] == n:
+                            reached.set()
+                            resume.wait(30)
+                    return local_tracer
+
+                def global_tracer(frame, event, arg):
+                    if event == 'call' and real_rt._in_sigtools(frame.f_code.co_filename):
+                        return local_tracer
+                    return None
+                return global_tracer
+            ca, cb = [0], [0]
+
+            def run(tag, tr, reached):
+                sys.settrace(tr)
+                try:
+                    out[tag] = ('ok', do(st))
+                except BaseException as e:  # noqa
+                    out[tag] = ('raised', type(e).__name__, str(e)[:200])
+                finally:
+                    sys.settrace(None)
+                    reached.set()
+            ta = threading.Thread(target=run, args=('a', tracer_for(k, a_reached, a_resume, ca), a_reached))
+            tb = threading.Thread(target=run, args=('b', tracer_for(j, b_reached, b_resume, cb), b_reached))
+            ta.start()
+            a_reached.wait(30)
+            tb.start()
+            b_reached.wait(30)
+            a_resume.set()
+            ta.join(60)
+            b_resume.set()
+            tb.join(60)
+            if ta.is_alive() or tb.is_alive():
+                problems.append('preempt2-stuck: scenario %s, A parked at #%d, B at #%d' % (name, k, j))
+                break
+            explored += 1
+            for t in 'ab':
+                r = out.get(t)
+                if r != ('ok', expected) and not (windowed and r and r[0] == 'ok'):
+                    problems.append('concurrent-answer: scenario %s, A parked before its sigtools line #%d, B before its line #%d, A finishes first: thread %s got %s, alone it gets %s' % (
+                        name, k, j, t.upper(), r, expected))
+            for rep in (1, 2):
+                try:
+                    after = do(st)
+                except BaseException as e:  # noqa
+                    after = ('raised', type(e).__name__)
+                if after != expected:
+                    problems.append('not-restored: scenario %s after the schedule (A parked at #%d, B at #%d, A finishes first): the shared object, asked alone (attempt %d), answers %s, before %s' % (
+                        name, k, j, rep, after, expected))
+                    break
+            if len(problems) >= 3:
+                return ('ok', tuple(problems[:3]), 'explored:%d' % explored)
+    return ('ok', tuple(problems[:3]), 'explored:%d' % explored)
+
+
+RT['preempt2'] = rt_preempt2
+for _i in range(4):
+    RT['preempt2_%d' % _i] = (lambda i: lambda req: rt_preempt2(('rt:preempt2', 'wrapped_fresh', tuple(range(5 + 15 * i, 700, 60)), tuple(range(5, 700, 15)))))(_i)
+
+
+def _prov_problems(sig, what):
+    src = getattr(sig, 'sources', None)
+    if not isinstance(src, dict) or '+depths' not in src:
+        return ['%s: %s has no provenance map' % (what, sig)]
+    out = []
+    extra = sorted(set(src) - set(sig.parameters) - {'+depths'})
+    if extra:
+        out.append('%s: %s has source entries for %s, which are not parameters' % (what, sig, extra))
+    for n in sig.parameters:
+        if not src.get(n):
+            out.append('%s: parameter %s of %s has no source' % (what, n, sig))
+        for f in src.get(n, ()):
+            if f not in src['+depths']:
+                out.append('%s: a source of %s has no depth' % (what, n))
+    return out
+
+
+def rt_callable_prov(req):
+    """C08: provenance of what is retrieved for callable INSTANCES whose class decorates `__call__` (and `__init__`, methods)
+    with modifiers: one entry per parameter, none for the receiver that binding removed; carried through forwards / partial"""
+    import functools
+    import sigtools
+    from sigtools import modifiers, signatures
+    problems = []
+
+    class Greeter(object):
+        @modifiers.annotate(greeting=str)
+        def __init__(self, greeting='hello'): pass
+
+        @modifiers.kwoargs('punctuation')
+        def __call__(self, name, punctuation='!'): return name
+
+        @modifiers.posoargs('self', 'name')
+        def pos(self, name, loud=False): return name
+
+    class Annotated(object):
+        @modifiers.annotate(name=str)
+        def __call__(self, name, k=1): return name
+
+    def outer(x, *args, **kwargs): pass
+    with warnings.catch_warnings():
+        warnings.simplefilter('ignore')
+        for label, obj in (('instance with kwoargs __call__', Greeter()), ('instance with annotate __call__', Annotated()),
+                           ('bound posoargs method', Greeter().pos), ('class', Greeter)):
+            for gl, get in (('signatures.signature', signatures.signature), ('sigtools.signature', sigtools.signature)):
+                s = _try(lambda: get(obj))
+                if s[0] != 'ok':
+                    problems.append('callable-prov: %s(%s) raised %s' % (gl, label, s[1]))
+                    continue
+                if 'self' in s[1].parameters:
+                    problems.append('callable-prov: %s(%s) = %s shows the receiver' % (gl, label, s[1]))
+                problems += ['callable-prov: ' + p for p in _prov_problems(s[1], '%s(%s)' % (gl, label))]
+                for dl, derive in (('forwards(outer, ·)', lambda: signatures.forwards(signatures.signature(outer), s[1])),
+                                   ('signature(partial(·))', lambda: get(functools.partial(obj))),
+                                   ('mask(·, 0)', lambda: signatures.mask(s[1], 0))):
+                    d = _try(derive)
+                    if d[0] == 'ok':
+                        problems += ['callable-prov: ' + p for p in _prov_problems(d[1], '%s of %s(%s)' % (dl, gl, label))]
+    return ('ok', tuple(problems[:5]), 'callable_prov')
+
+
+RT['callable_prov'] = rt_callable_prov
+
+
+def rt_kwname_decl(req):
+    """C06: discovery = the explicit declaration for forwarding calls that pass one argument BY NAME, whatever the name
+    (names of sigtools' own helper parameters included), and for calls whose other arguments are attribute reads that fail
+    with something else than AttributeError (a property raising RuntimeError, a `__getattr__` letting KeyError out): the
+    argument is unknown, the retrieval does not raise"""
+    import sigtools
+    from sigtools import signatures
+    from . import progs
+    problems = []
+    kws = ('callback', 'func', 'self', 'args', 'kwargs', 'obj', 'sig', 'name', 'partial', 'call', 'signature', 'function', 'wrapped', 'cls')
+    src = ''.join('def callee_%s(x, y=None, *, %s, z=0): return x\ndef wrapper_%s(a, *args, **kwargs):\n    return callee_%s(a, *args, %s=None, **kwargs)\n' % (k, k, k, k, k)
+                  for k in kws)
+    src += ('class Lazy(object):\n    @property\n    def conn(self):\n        raise RuntimeError("not connected")\n'
+            '    def __getattr__(self, name):\n        raise KeyError(name)\n'
+            'LAZY = Lazy()\n'
+            'def record(ch, payload, *, level=0): return payload\n'
+            'def via_property(tag, *args, **kwargs):\n    return record(LAZY.conn, *args, **kwargs)\n'
+            'def via_getattr(tag, *args, **kwargs):\n    return record(LAZY.missing, *args, **kwargs)\n'
+            'def via_kw(tag, *args, **kwargs):\n    return record(0, *args, level=LAZY.conn, **kwargs)\n'
+            'def callee_attr(tag, *args, **kwargs):\n    return LAZY.conn(*args, **kwargs)\n'
+            'def callee_attr2(tag, *args, **kwargs):\n    return LAZY.missing.deeper(*args, **kwargs)\n')
+    mod, fname = progs.load_module(src)
+    try:
+        with warnings.catch_warnings():
+            warnings.simplefilter('ignore')
+            for k in kws:
+                w, c = getattr(mod, 'wrapper_' + k), getattr(mod, 'callee_' + k)
+                got = _try(lambda: sigtools.signature(w))
+                want = _try(lambda: signatures.forwards(signatures.signature(w), sigtools.signature(c), 1, k))
+                if got[0] != want[0] or (got[0] == 'ok' and (str(got[1]) != str(want[1]) or got[1].sources != want[1].sources)):
+                    problems.append('kwname-declaration: the forwarding call passes %s=…: discovered %s, the explicit declaration forwards(w, callee, 1, %r) gives %s' % (
+                        k, got[1] if got[0] != 'ok' else str(got[1]), k, want[1] if want[0] != 'ok' else str(want[1])))
+            for nm, want in (('via_property', '(tag, payload, *, level=0)'), ('via_getattr', '(tag, payload, *, level=0)'), ('via_kw', '(tag, payload)'),
+                             ('callee_attr', None), ('callee_attr2', None)):
+                f = getattr(mod, nm)
+                got = _try(lambda: str(sigtools.signature(f)))
+                plain = str(signatures.signature(f))
+                if got[0] != 'ok':
+                    problems.append('failing-getter: sigtools.signature(%s) raised %s: an attribute read during discovery failed with something else than AttributeError' % (nm, got[1]))
+                elif got[1] != (want or plain):
+                    problems.append('failing-getter: sigtools.signature(%s) = %s, expected %s' % (nm, got[1], want or plain))
+    finally:
+        progs.unload(fname)
+    return ('ok', tuple(problems[:5]), 'kwname_decl')
+
+
+RT['kwname_decl'] = rt_kwname_decl
+
+
+def rt_plain_sequence(req):
+    """C02 / C15: sequences of operations on PLAIN inspect.Signature inputs that are created and released in turn (the address of
+    a released object is reused at once): every result describes the input given NOW, not an earlier one"""
+    import gc
+    from sigtools import signatures, support
+    P = inspect.Parameter
+    problems = []
+    outer = support.s('a, *args, **kwargs')
+    shapes = ([P('x', P.POSITIONAL_OR_KEYWORD), P('y', P.POSITIONAL_OR_KEYWORD)], [P('k', P.KEYWORD_ONLY)],
+              [P('z', P.POSITIONAL_OR_KEYWORD, default=1)], [P('m', P.POSITIONAL_ONLY), P('n', P.KEYWORD_ONLY, default=2)])
+    with warnings.catch_warnings():
+        warnings.simplefilter('ignore')
+        for rnd in range(120):
+            for i, ps in enumerate(shapes):
+                sig = inspect.Signature(ps)
+                want = ['a'] + [p.name for p in ps]
+                for label, op in (('embed(outer, s)', lambda: signatures.embed(outer, sig)), ('merge(s)', lambda: signatures.merge(sig)),
+                                  ('mask(s, 0)', lambda: signatures.mask(sig, 0)), ('forwards(outer, s)', lambda: signatures.forwards(outer, sig))):
+                    r = _try(lambda: list(op().parameters))
+                    exp = want if label.startswith(('embed', 'forwards')) else want[1:]
+                    if r != ('ok', exp):
+                        problems.append('stale-plain-input: round %d, %s for the plain signature %s gives parameters %s, expected %s (an earlier, released input had other parameters)' % (
+                            rnd, label, sig, r, exp))
+                        return ('ok', tuple(problems[:3]), 'plain_sequence')
+                del sig
+                gc.collect()
+    return ('ok', tuple(problems[:3]), 'plain_sequence')
+
+
+RT['plain_sequence'] = rt_plain_sequence
+
+
+def rt_bare_upgraded(req):
+    """C15: upgraded signatures built by hand with no provenance (`UpgradedSignature([UpgradedParameter(…)])`, what
+    `replace(parameters=…)` on a fresh object or third-party code produces) are legal inputs: the algebra returns or raises
+    ValueError, nothing else"""
+    from sigtools import signatures, _signatures
+    P = inspect.Parameter
+    problems = []
+    UP, US = _signatures.UpgradedParameter, _signatures.UpgradedSignature
+    with warnings.catch_warnings():
+        warnings.simplefilter('ignore')
+        def mk(*ps):
+            return US([UP(n, k) for n, k in ps])
+        a = lambda: mk(('a', P.POSITIONAL_OR_KEYWORD), ('args', P.VAR_POSITIONAL), ('kwargs', P.VAR_KEYWORD))   # noqa
+        b = lambda: mk(('x', P.POSITIONAL_OR_KEYWORD), ('k', P.KEYWORD_ONLY))   # noqa
+        for label, op in (('mask(s, 1)', lambda: signatures.mask(b(), 1)), ('mask(s, 0, "k")', lambda: signatures.mask(b(), 0, 'k')),
+                          ('merge(s, t)', lambda: signatures.merge(a(), b())), ('merge(s)', lambda: signatures.merge(b())),
+                          ('embed(s, t)', lambda: signatures.embed(a(), b())), ('forwards(s, t)', lambda: signatures.forwards(a(), b())),
+                          ('forwards(s, t, 1)', lambda: signatures.forwards(a(), b(), 1)), ('sort_params(s)', lambda: signatures.sort_params(b())),
+                          ('s.evaluated()', lambda: b().evaluated()), ('s.replace(parameters=…)', lambda: b().replace(parameters=list(b().parameters.values())[:1]))):
+            r = _try(op)
+            if r[0] != 'ok' and r[1] != 'ValueError':
+                problems.append('bare-upgraded-input: %s on hand-built UpgradedSignature objects raised %s' % (label, r[1]))
+    return ('ok', tuple(problems[:5]), 'bare_upgraded')
+
+
+RT['bare_upgraded'] = rt_bare_upgraded
+
+
+def rt_none_attrs(req):
+    """C16: what retrieval takes off an object for a moment it puts back, whatever the VALUE: `__signature__ = None` and
+    `__wrapped__ = None` (legal for inspect: None means 'no signature set') are still there afterwards, on success and failure"""
+    import sigtools
+    from sigtools import signatures
+    from . import progs
+    problems = []
+    src = ('def callee(x, y=1): return x\n'
+           'def w(a, *args, **kwargs):\n    return callee(*args, **kwargs)\n'
+           'def w2(a, *args, **kwargs):\n    return callee(*args, **kwargs)\n'
+           'def w3(a, *args, **kwargs):\n    return missing_name(*args, **kwargs)\n')
+    mod, fname = progs.load_module(src)
+    try:
+        with warnings.catch_warnings():
+            warnings.simplefilter('ignore')
+            for fn, attrs in ((mod.w, {'__signature__': None}), (mod.w2, {'__wrapped__': None}), (mod.w3, {'__signature__': None, '__wrapped__': None}),
+                              (mod.w, {'__signature__': None, '__wrapped__': 0}), (mod.w2, {'__wrapped__': False, '__signature__': None})):
+                for k in ('__signature__', '__wrapped__'):
+                    fn.__dict__.pop(k, None)
+                fn.__dict__.update(attrs)
+                before = dict(vars(fn))
+                for gl, get in (('sigtools.signature', sigtools.signature), ('signatures.signature', signatures.signature),
+                                ('sigtools.signature(auto=False)', lambda o: sigtools.specifiers.signature(o, auto=False))):
+                    r = _try(lambda: get(fn))
+                    after = dict(vars(fn))
+                    if after != before:
+                        problems.append('attribute-lost: %s(%s) with %r set on it (%s): vars() before %r, after %r' % (
+                            gl, fn.__name__, attrs, 'returned' if r[0] == 'ok' else 'raised ' + r[1], before, after))
+                        fn.__dict__.clear()
+                        fn.__dict__.update(before)
+                for k in attrs:
+                    fn.__dict__.pop(k, None)
+    finally:
+        progs.unload(fname)
+    return ('ok', tuple(problems[:4]), 'none_attrs')
+
+
+RT['none_attrs'] = rt_none_attrs
+
+
+def _exec_src(src, ns, filename, postponed):
+    import __future__
+    import linecache
+    linecache.cache[filename] = (len(src), None, src.splitlines(True), filename)
+    exec(compile(src, filename, 'exec', __future__.annotations.compiler_flag if postponed else 0, True), ns)
+
+
+def rt_annot_namespace(req):
+    """C11: (a) a PEP 563 annotation spelled like a builtin (`int`, `str`, `object`) in a module that rebinds that name denotes
+    the MODULE's object, in every retrieved and combined signature, as for the eagerly compiled twin; (b) a functools.wraps
+    wrapper and the function it wraps that share ONE namespace but were compiled with different future flags (an interactive
+    session after the future statement was typed; plugin code exec'd into a shared namespace): annotations inherited from
+    the wrapped function are resolved by the wrapped function's rules, the wrapper's own by the wrapper's"""
+    import functools
+    import sigtools
+    from sigtools import signatures
+    problems = []
+    MOD = ('class int(object): pass\nclass Marker(object): pass\nstr = Marker\n'
+           'def f(a: int, b: str = None, *args: object, k: int = None, **kw: str) -> int: return a\n'
+           'def g(a: int, *args, **kwargs) -> str: return f(a, *args, **kwargs)\n'
+           'def outer(x: str, *args, **kwargs): return f(*args, **kwargs)\n')
+    with warnings.catch_warnings():
+        warnings.simplefilter('ignore')
+        res = {}
+        for postponed in (False, True):
+            ns = {'__name__': 'c11ns_%d' % postponed}
+            _exec_src(MOD, ns, '<c11-ns-%d>' % postponed, postponed)
+            want = {'int': ns['int'], 'str': ns['Marker'], 'object': object}
+            sigs = (('signature(f)', lambda: sigtools.signature(ns['f'])), ('signatures.signature(f)', lambda: signatures.signature(ns['f'])),
+                    ('mask(f, 1)', lambda: signatures.mask(signatures.signature(ns['f']), 1)),
+                    ('merge(f, f)', lambda: signatures.merge(signatures.signature(ns['f']), signatures.signature(ns['f']))),
+                    ('embed(outer, f)', lambda: signatures.embed(signatures.signature(ns['outer']), signatures.signature(ns['f']))),
+                    ('signature(partial(f, 1))', lambda: sigtools.signature(functools.partial(ns['f'], 1))),
+                    ('signature(g) [discovery]', lambda: sigtools.signature(ns['g'])), ('signature(outer) [discovery]', lambda: sigtools.signature(ns['outer'])))
+            expect = {'a': 'int', 'b': 'str', 'args': 'object', 'k': 'int', 'kw': 'str', 'x': 'str'}
+            for label, mk in sigs:
+                r = _try(lambda: mk().evaluated())
+                if r[0] != 'ok':
+                    problems.append('annotation-namespace: %s.evaluated() raised %s (module compiled %s)' % (label, r[1], 'with the future flag' if postponed else 'eagerly'))
+                    continue
+                for n, p in r[1].parameters.items():
+                    if n in expect and p.annotation is not p.empty and p.annotation is not want[expect[n]]:
+                        problems.append('annotation-namespace: %s (module compiled %s, it rebinds int and str): parameter %s: %s evaluates to %r, the module\'s %s is %r' % (
+                            label, 'with the future flag' if postponed else 'eagerly', n, expect[n], p.annotation, expect[n], want[expect[n]]))
+                        break
+        DECO = ('import functools\n'
+                'def logged(func):\n    @functools.wraps(func)\n    def wrapper(*args, **kwargs):\n        return func(*args, **kwargs)\n    return wrapper\n'
+                'def logged_own(func):\n    @functools.wraps(func)\n    def wrapper(*args, **kwargs) -> Leaf:\n        return func(*args, **kwargs)\n    return wrapper\n')
+        GROW = ('def grow(tree: Tree, by: int = 1, *, leaf: Leaf = None) -> Tree: return tree\n'
+                'def quoted(tree: "Tree") -> "Tree": return tree\n')
+        for deco_post, grow_post in ((False, True), (True, False), (True, True), (False, False)):
+            class Tree(object): pass
+            class Leaf(object): pass
+            ns = {'__name__': 'c11shared', 'Tree': Tree, 'Leaf': Leaf}
+            _exec_src(DECO, ns, '<c11-deco-%d%d>' % (deco_post, grow_post), deco_post)
+            _exec_src(GROW, ns, '<c11-grow-%d%d>' % (deco_post, grow_post), grow_post)
+            how = 'decorator compiled %s, function %s, ONE namespace' % ('postponed' if deco_post else 'eagerly', 'postponed' if grow_post else 'eagerly')
+            for wl, w, exp in (('logged(grow)', ns['logged'](ns['grow']), {'tree': Tree, 'by': int, 'leaf': Leaf, 'return': Tree}),
+                               ('logged(quoted)', ns['logged'](ns['quoted']), {'tree': 'Tree', 'return': 'Tree'})):
+                for gl, get in (('sigtools.signature', sigtools.signature), ('signature(auto=False)', lambda o: sigtools.specifiers.signature(o, auto=False)),
+                                ('signatures.signature', signatures.signature)):
+                    r = _try(lambda: get(w).evaluated())
+                    if r[0] != 'ok':
+                        problems.append('shared-namespace: %s(%s).evaluated() raised %s (%s)' % (gl, wl, r[1], how))
+                        continue
+                    got = {n: p.annotation for n, p in r[1].parameters.items()}
+                    got['return'] = r[1].return_annotation
+                    bad = [(n, got.get(n), v) for n, v in exp.items() if got.get(n) is not v and got.get(n) != v]
+                    if bad:
+                        problems.append('shared-namespace: %s(%s) (%s): %s' % (gl, wl, how, '; '.join('%s evaluates to %r, expected %r' % b for b in bad)))
+    return ('ok', tuple(problems[:5]), 'annot_namespace')
+
+
+RT['annot_namespace'] = rt_annot_namespace
+
+
+def rt_pok_forms_bound(req):
+    """C18 / C12: a by-name modifier and a start= / end= form converting disjoint parameters of a METHOD, in both stacking
+    orders: same class-level signature, same bound signature (= the class-level one without the receiver), and the bound
+    method delivers every call where that signature binds it"""
+    from sigtools import modifiers, specifiers
+    problems = []
+    pairs = (("posoargs('self', 'a')", lambda: modifiers.posoargs('self', 'a'), "kwoargs(start='c')", lambda: modifiers.kwoargs(start='c')),
+             ("kwoargs('d')", lambda: modifiers.kwoargs('d'), "posoargs(end='a')", lambda: modifiers.posoargs(end='a')),
+             ("kwoargs('c')", lambda: modifiers.kwoargs('c'), "kwoargs(start='d')", lambda: modifiers.kwoargs(start='d')),
+             ("posoargs('self')", lambda: modifiers.posoargs('self'), "kwoargs(start='b')", lambda: modifiers.kwoargs(start='b')))
+    with warnings.catch_warnings():
+        warnings.simplefilter('ignore')
+        for l1, d1, l2, d2 in pairs:
+            seen = {}
+            for order in ('first-on-top', 'second-on-top'):
+                def m(self, a, b, c=3, d=4): return {'a': a, 'b': b, 'c': c, 'd': d}
+                r = _try(lambda: d1()(d2()(m)) if order == 'first-on-top' else d2()(d1()(m)))
+                if r[0] != 'ok':
+                    problems.append('forms-bound: %s %s %s raised %s at decoration time' % (l1, 'over' if order == 'first-on-top' else 'under', l2, r[1]))
+                    continue
+                K = type('K', (object,), {'m': r[1]})
+                inst = K()
+                cs = _try(lambda: str(specifiers.signature(K.__dict__['m'])))
+                bs = _try(lambda: str(specifiers.signature(inst.m)))
+                bsig = _try(lambda: inspect.signature(inst.m))
+                calls = []
+                if bsig[0] == 'ok':
+                    for args, kw in _calls(('a', 'b', 'c', 'd')):
+                        def want_of():
+                            ba = bsig[1].bind(*args, **kw)
+                            ba.apply_defaults()
+                            return dict(ba.arguments)
+                        want = _try(want_of)
+                        if want[0] != 'ok':
+                            want = ('raised', 'TypeError')
+                        got = _try(lambda: inst.m(*args, **kw))
+                        if got != want:
+                            problems.append('forms-bound-call: %s %s %s on a method, bound signature %s: call(*%r, **%r) -> %s, the signature says %s' % (
+                                l1, 'over' if order == 'first-on-top' else 'under', l2, bs, args, kw, got, want))
+                            break
+                        calls.append(got)
+                seen[order] = (cs, bs, calls)
+            if len(seen) == 2 and seen['first-on-top'] != seen['second-on-top']:
+                a_, b_ = seen['first-on-top'], seen['second-on-top']
+                problems.append('forms-order: %s and %s on a method: %s over the other gives class-level %s, bound %s; the other order gives %s, %s%s' % (
+                    l1, l2, l1, a_[0], a_[1], b_[0], b_[1], '' if a_[2] == b_[2] else '; the call results differ too'))
+    return ('ok', tuple(problems[:5]), 'pok_forms_bound')
+
+
+RT['pok_forms_bound'] = rt_pok_forms_bound
